@@ -68,6 +68,7 @@ type govModel struct {
 	blockedNow    map[string]map[string]bool
 	reentrantSeen bool // see afterBlockGov
 	tainted       map[string]bool // objects already reported by checkOpenProposalStatus
+	bindingBy     map[string]string // "node:<account>" -> open role proposal (register / bind) that put the node into 'binding'
 }
 
 func newGovModel(s *scn) *govModel {
@@ -422,6 +423,7 @@ func afterBlockGov(s *scn, h uint64, txs []*pb.BxhTransaction, metas []*txMeta, 
 		}
 		if old != curSt[k] {
 			s.res.Count("probe_status_change")
+			s.logf("  status of %s: %s -> %s", k, old, curSt[k])
 			s.res.State("status", strings.Split(k, ":")[0], old, curSt[k])
 			if !touched[id] && !touched[chainID] && !touched["*"] && !(touched["audit*"] && s.isAuditObject(id)) {
 				s.vio("C16", "status-change-without-cause", strings.Split(k, ":")[0]+"/"+old+"->"+curSt[k], "block %d: status of %s changed %s -> %s although the block contains no successful operation on it, no concluding vote on it and no operation on its appchain", h, k, old, curSt[k])
